@@ -163,7 +163,12 @@ def w_types(arg):
         for c in (hcp, crystal.Crystal(np.eye(2), [[np.zeros(2)]])):      # one pool per crystal (operations of one crystal are what gets compared)
             G = sorted(c.G, key=lambda g: g.rot.tobytes())[:6]
             pool = G + [crystal.GroupOp(g.rot.copy(), g.trans.copy(), g.cartrot.copy(), g.indexmap) for g in G[:3]] + [g + np.ones(c.dim, dtype=int) for g in G[:2]]
+            # the same operations reached through every route that constructs one: identity constructor, products with inverses,
+            # shifts undone, products with the identity
+            e = crystal.GroupOp.ident(c.basis)
+            pool += [e] + [g * g.inv() for g in G[:3]] + [g.inv() * g for g in G[:2]] + [(g + np.ones(c.dim, dtype=int)) - np.ones(c.dim, dtype=int) for g in G[:2]] + [e * g for g in G[:2]] + [g * e for g in G[:2]]
             laws(acc, pool, 'GroupOp')
+            acc.check(e in c.G and all((e * g) in c.G and (g * e) in c.G for g in G), 'operations-built-by-other-routes-are-found-in-the-group-set', '', sig='inG')
     elif kind == 'GroupOp-near-equal':
         g = sorted(hcp.G, key=lambda g: g.rot.tobytes())[3]
         mk = lambda dt: crystal.GroupOp(g.rot, g.trans + dt, g.cartrot, g.indexmap)
